@@ -15,6 +15,7 @@ def main(tier):
     # guards that keep queries from crashing or producing NaN, as far as their shape decides it
     kernels.acos_clamp(P, rep)                 # NaN-absorbing clamp in front of acos
     rep.attempt(asserts.indexed_store_bounds, P, rep)
+    rep.attempt(segments.section_index_as_reported, P, rep)   # the section index is the one the trench curve reported
     # the 2D wrapper walks the 3D result with its own counter: it stays inside the vector only if it gives every kind the width the
     # producer gave it (a wider step reads and writes past the end for a suitable request)
     from ..rules import layout as _layout
